@@ -42,13 +42,12 @@ def mono_faces(B, n, name='xf'):
 
 
 def mesh_with_faces(B, fd, xf):
-    """a flowdyn mesh1d whose faces are the given (symbolic) monotone array: built by the real
-    constructor, then faces/centres/length replaced the way refinedmesh/morphedmesh do"""
+    """a flowdyn 1D mesh whose faces are the given (symbolic) monotone array, built through the public constructor for
+    non-uniform meshes: morphedmesh with a morphing that maps the uniform faces onto xf (every monotone face array is the image
+    of the uniform one under some monotone map). Nothing is patched by hand, so whatever the constructors derive from the
+    faces (centres, length, sizes) is derived by the real code."""
     n = len(xf) - 1
-    me = fd.mesh.mesh1d(ncell=n, length=xf[n] - xf[0])
-    me.xf = xf
-    me.xc = me.calc_centers()
-    return me
+    return fd.mesh.morphedmesh(ncell=n, length=xf[n] - xf[0], x0=xf[0], morph=lambda x: xf)
 
 
 # ----------------------------------------------------------------------------------------
@@ -120,6 +119,14 @@ def make_bc(B, cfg, model_name):
         return {'type': 'per'}, {'type': 'per'}
     if bc == 'sym':
         return {'type': 'sym'}, {'type': 'sym'}
+    if bc == 'open':
+        # imposed-state boundaries: subsonic inlet / outlet for Euler, dirichlet elsewhere
+        if model_name == 'euler1d':
+            return ({'type': 'insub', 'ptot': B.pos('ptot', 3.0, 4.0), 'rttot': B.pos('rttot', 0.5, 3.0)},
+                    {'type': 'outsub', 'p': B.pos('pout', 0.2, 1.0)})
+        neq = {'convection': 1, 'burgers': 1, 'shallowwater': 2}[model_name]
+        prm = [B.pos('dir%d' % k, 0.5, 2.0) for k in range(neq)]
+        return {'type': 'dirichlet', 'prim': prm}, {'type': 'dirichlet', 'prim': list(prm)}
     raise KeyError(bc)
 
 
